@@ -1,3 +1,94 @@
 import LocustModel.Proto
-/- Driver stub for C14 (replaced when the property's model is built). -/
-def main : IO Unit := LM.Proto.runDriver fun _ => "?\t?"
+import LocustModel.Disk.Envelope
+import LocustModel.Disk.Segment
+import LocustModel.Disk.Sha256
+import LocustModel.Disk.SegProto
+/-
+  Driver for C14.  One input line → `<model> TAB <spec>`.
+
+    env <payload>                      payload as `x<hex>`; implementation = bytes of the file written by the real
+                                       VersionedChecksummedBlobWriter(FileBlobWriter).  model = spec = `wrap sha256 payload`.
+    load <orig> <file> <impl>          `file` = bytes handed to the real `load` (the stored file of payload `orig`, possibly
+                                       corrupted); impl = `ok:x…` | `err:tooShort|version|length|checksum` | `panic`.
+                                       model = `unwrap sha256 file`.
+                                       spec: if file = wrap orig then impl must be `ok:orig`; otherwise impl must not be `ok:…`
+                                       (`orig` = `-` for files not produced by the database: then any `ok:d` requires file = wrap d).
+    seg <object> <back> <d0> <d1>      object = columns handed to PartitionSegment::serialize, back = result of deserialize,
+                                       d0/d1 = derived codec fields before/after.  impl = `<tree> <back>` (tree dumped through the
+                                       capnp reader from the real bytes) or `panic`.
+                                       model = `<serSegment object> <deserSegment ∘ serSegment object>` | `fault`;
+                                       spec: back = object ∧ d1 = d0 (SKIP when the model predicts the writer's panic).
+    wal <object> <back>                same for WalSegment (tables and columns sorted by name in all dumps); spec: back = object.
+    meta <object> <back>               same for MetaStore (partitions sorted by (table, id)); spec: back = normaliseMeta object.
+    openclass <outcome>                LocustDB::new on a directory with one corrupted file, classified by the harness in a child
+                                       process; spec BAD iff the outcome is `silently-different…`; model `?`.
+-/
+namespace LM.DrvC14
+open LM LM.Proto LM.Envelope LM.Segment LM.SegProto
+
+def H : List UInt8 → List UInt8 := LM.Sha256.sha256
+
+def showLoaded : Loaded → String
+  | .ok d => "ok:" ++ showHexBytes d
+  | .err .tooShort => "err:tooShort"
+  | .err .version => "err:version"
+  | .err .length => "err:length"
+  | .err .checksum => "err:checksum"
+  | .overflowPanic => "panic"
+
+def judgeLoad (orig : Option (List UInt8)) (file : List UInt8) (impl : String) : String :=
+  let okPrefix := impl.startsWith "ok:"
+  match orig with
+  | some d =>
+      if file = wrap H d then (if impl = "ok:" ++ showHexBytes d then "OK" else "BAD intact file not read back as written")
+      else if okPrefix then "BAD corrupted file accepted" else "OK"
+  | none =>
+      if okPrefix then
+        match parseHexBytes? ((impl.drop 3).toString) with
+        | some d => if file = wrap H d then "OK" else "BAD foreign file decoded into data it does not spell"
+        | none => "BAD unparsable"
+      else "OK"
+
+def step (line : String) : String :=
+  match splitTokens line with
+  | ["env", p] =>
+      match parseHexBytes? p with
+      | some d => let w := showHexBytes (wrap H d); w ++ "\t" ++ w
+      | none => "bad-op\tbad-op"
+  | ["load", orig, file, impl] =>
+      match (if orig = "-" then some none else (parseHexBytes? orig).map some), parseHexBytes? file with
+      | some o, some f => showLoaded (unwrap H f) ++ "\t" ++ judgeLoad o f impl
+      | _, _ => "bad-op\tbad-op"
+  | ["seg", obj, back, d0, d1] =>
+      match (parseTerm obj).bind segOf with
+      | some cols =>
+          match serSegment cols with
+          | .error _ => "panic\tSKIP"
+          | .ok tree =>
+              let backM := match deserSegment tree with
+                | .ok cs => (showSeg cs).show
+                | .error f => "fault:" ++ toString f
+              (showCapSeg tree).show ++ " " ++ backM ++ "\t" ++
+                (if back ≠ obj then "BAD decoded columns differ from the encoded ones"
+                 else if d0 ≠ d1 then "BAD derived codec properties differ after the round trip" else "OK")
+      | none => "bad-op\tbad-op"
+  | ["wal", obj, back] =>
+      match (parseTerm obj).bind walOf with
+      | some w =>
+          let tree := serWal w
+          (showCapWal tree).show ++ " " ++ (showWal (deserWal tree)).show ++ "\t" ++
+            (if back = obj then "OK" else "BAD decoded log segment differs from the encoded one")
+      | none => "bad-op\tbad-op"
+  | ["meta", obj, back] =>
+      match (parseTerm obj).bind metaOf with
+      | some m =>
+          let tree := serMeta m
+          (showCapMeta tree).show ++ " " ++ (showMeta (deserMeta tree)).show ++ "\t" ++
+            (if back = (showMeta (normaliseMeta m)).show then "OK" else "BAD decoded catalogue is not the normalised original")
+      | none => "bad-op\tbad-op"
+  | ["openclass", o] => "?\t" ++ (if o.startsWith "silently-different" then "BAD database opened with different data" else "OK")
+  | _ => "bad-op\tbad-op"
+
+end LM.DrvC14
+
+def main : IO Unit := LM.Proto.runDriver LM.DrvC14.step
